@@ -363,7 +363,7 @@ class C14(vlib.Spec):
         "Banyan.Tie.C14." + t for t in ["shape_tie", "decref_tie", "callers_tie"]]
     go_driver = "c14"
     lean_driver = "C14"
-    counts = {"quick": int(os.environ.get("VERIF_C14_N", "2000")), "thorough": int(os.environ.get("VERIF_C14_N", "30000"))}
+    counts = {"quick": int(os.environ.get("VERIF_C14_N", "2000")), "thorough": int(os.environ.get("VERIF_C14_N", "10000"))}
     trusted_base = [
         "Lean 4.33.0 kernel",
         "reading of segment.go into the atomic-step programs of Banyan.C14.tstep (one pc = one atomic action)",
@@ -388,8 +388,8 @@ class C14(vlib.Spec):
 
     def cases(self, rng, n):
         out = []
-        stress_iters = 800 if n <= 5000 else 8000
-        n_stress = 4 if n <= 5000 else 40
+        stress_iters = 800 if n <= 5000 else 4000
+        n_stress = 4 if n <= 5000 else 18
         mix = [(case_life, 0.38), (case_fail, 0.18), (case_shut, 0.08), (case_steal, 0.1), (case_leak, 0.08),
                (case_hook, 0.1), (case_race, 0.08)]
         for fn, share in mix:
